@@ -52,8 +52,9 @@ def check_schema(inp):
     sver = schema_version(ver, prefix)
     o = obs.classes()[ver](s)
     fails = []
-    for sort in (False, True):
-        for minimal in (False, True):
+    pairs = inp.get("pairs") or [[False, False], [False, True], [True, False], [True, True]]
+    for sort, minimal in pairs:
+        if True:
             doc = o.as_json(sort=sort, minimal=minimal)
             try:
                 doc = json.loads(json.dumps(doc))      # the JSON round trip of the statement
@@ -114,6 +115,27 @@ def covering():
     return out
 
 
+def sweep_work(shard, n, seed):
+    """seeded random classes of the score quotients (C09's sampler, incl. the thin low-score corners), one
+    (sort, minimal) pair per document in rotation: cheap breadth behind the Hypothesis cases"""
+    import random
+    from . import c09
+    part = runner.Part(PID)
+    rng = random.Random(runner.mix(seed, 10, shard))
+    pairs = [[False, False], [False, True], [True, False], [True, True]]
+    k = 0
+    for ver in spec.VKEYS:
+        for _ in range(n):
+            v = c09._rand_class(rng, ver)
+            k += 1
+            inp = {"ver": ver, "s": v, "pairs": [pairs[k % 4]]}
+            part.check("schema", check_schema, inp)
+            part.evaluations += 1
+            part.nontrivial_count += 1
+            part.classes["sweep:v" + ver] += 1
+    return part
+
+
 def hyp_part(n_examples, shard):
     from hypothesis import given, strategies as st
     part = runner.Part(PID)
@@ -140,11 +162,14 @@ def run(tier, t0):
         part.count(None, classes=("covering",))
         part.check("schema", check_schema, {"ver": ver, "s": s})
     part.merge(runner.hyp_shards("vf.props.c10", "hyp_part", 4800 if tier == "quick" else 160000))
+    for p in runner.parallel("vf.props.c10", "sweep_work", [(sh, 2000 if tier == "quick" else 40000, runner.SEED) for sh in range(runner.NPROC)]):
+        part.merge(p)
     rule = ("accepted vectors of every version (uniform presence of optional metrics, official order half of the time) x "
             "all four (sort, minimal) combinations inside each case; covering set: every (metric, value) of every version "
-            "and minor. non-trivial = vector with at least one optional metric defined; distinct by hash. Each case "
-            "validates 4 documents.")
+            "and minor; sweep: seeded random classes of the v2/v3/v4 score quotients in random spellings (C09's sampler), one "
+            "option pair per document in rotation. non-trivial = vector with at least one optional metric defined; distinct "
+            "by hash (sweep classes counted). Each Hypothesis/covering case validates 4 documents.")
     return runner.finish(part, tier, t0, rule,
                          ["pinned copies of FIRST's schemas (vf/spec_data/schemas); draft chosen from $schema; numbers parsed as Decimal so multipleOf 0.1 is exact",
                           "the schemas allow additional properties: library v4 field names that differ from the schema's are not constrained by it"],
-                         required=("covering", "v2", "v33.0", "v33.1", "v4", "official-order", "other-order"))
+                         required=("covering", "v2", "v33.0", "v33.1", "v4", "official-order", "other-order", "sweep:v2", "sweep:v3", "sweep:v4"))
